@@ -145,6 +145,15 @@ def run(case, ctx):
         LOG.n("c10.motif_by_reference")
     s = apply_prefix(s, case.get("prefix", []))
     o = obs(s)
+    if o is None:
+        # neither view of the sequence is fresh after a history of public calls: no legal Bar construction can succeed on it
+        try:
+            Bar(s, num, den)
+            why = "constructed"
+        except Exception as e:
+            why = f"{type(e).__name__}: {e}"
+        return {"nontrivial": False, "shape": ("unreadable",),
+                "fails": [fail("sequence_unreadable_before_bar_construction", {"prefix": case.get("prefix"), "bar_construction": why})]}
     dur = o["dur"]
     sigs = [(e[0], e[5], e[6]) for e in o["non"] if e[1] == orc.TS]
     fails = []
